@@ -72,7 +72,9 @@ func planFor(prop, tier string) plan {
 				p.Configs[1].SpreadFactor = "0.0005"
 				p.Alpha.SwapIn = []int64{999, 400000, 30000000}
 				p.Alpha.SwapOut = []int64{250000}
-				p.Alpha.Creates = p.Alpha.Creates[:5]
+				// keep the non-dust create whose upper boundary is the current tick (range 5): fees accruing while the
+				// tick sits on a position's upper boundary are the case the spread-growth attribution can get wrong
+				p.Alpha.Creates = append(append([]Op{}, p.Alpha.Creates[:5]...), p.Alpha.Creates[6])
 			}
 		} else {
 			p.Depth, p.SeedDep = 4, 3
